@@ -82,8 +82,12 @@ def gen_method(rng, name, ctx):
     elif kind == "actor_param":  # a parameter merely named `actor`
         first = "actor: %s" % rng.choice(["u8", "String", "&'static str", "Vec<u8>"])
     plist = ([first] if first else []) + params
-    txt = "%s%s%s%sfn %s%s(%s)%s %s { todo!() }" % (
-        "".join(d + "\n    " for d in docs), vis, " " if vis else "", "async " if is_async else "", name, gen, ", ".join(plist),
+    # ordinary (non-doc) attributes the user may put on a method: the user's impl block is emitted with them, unchanged
+    uattr = rng.choice(["", "", "", "#[inline]\n    ", "#[allow(unused_variables)]\n    ", "#[track_caller]\n    ", "#[cfg(all())]\n    ", "#[must_use]\n    " if ret else ""])
+    if is_async and "track_caller" in uattr:
+        uattr = "#[inline]\n    "
+    txt = "%s%s%s%s%sfn %s%s(%s)%s %s { todo!() }" % (
+        "".join(d + "\n    " for d in docs), uattr, vis, " " if vis else "", "async " if is_async else "", name, gen, ", ".join(plist),
         (" -> " + ret) if ret else "", where)
     return {"name": name, "kind": kind, "text": txt}
 
